@@ -219,7 +219,14 @@ def loom_name(l, sysd=None, proc=0):
     # per MPI process), and every process carries a rank, placed round-robin over the hosts
     if sysd is not None and sysd.get("_split"):
         return "node%d.p%d" % (l, proc)
-    return "node%d.x" % l
+    return "%s.x" % host_name(l, sysd)
+
+
+def host_name(l, sysd=None):
+    # _prefixhost: the name of one host is a proper prefix of the name of the next ("node1", "node10", "node100")
+    if sysd is not None and sysd.get("_prefixhost"):
+        return "node1" + "0" * (l - 1)
+    return "node%d" % l
 
 
 def K(sysd):
@@ -279,7 +286,7 @@ def offsets_table(sysd):
         # only the median is the offset; mean and deviation are made unrelated on purpose.
         # The median is a real number for the parser: some tables spell it in exponent or fixed notation
         med = {"exp": "%.12e" % o, "fix": "%.3f" % o}.get(sysd.get("_offfmt"), "%d" % o)
-        txt += "%-10d %-20s %-20s %-20.6f %-20.6f\n" % (r, "node%d" % l, med, 500.25 * (r + 1) - 3 * o, 3.5 + r)
+        txt += "%-10d %-20s %-20s %-20.6f %-20.6f\n" % (r, host_name(l, sysd), med, 500.25 * (r + 1) - 3 * o, 3.5 + r)
         if sysd.get("_blankline") and r == 0:
             txt += "   \t \n"          # a line with blanks only (hand-edited tables, CRLF files)
     return txt
@@ -672,6 +679,10 @@ def main(pid, tier):
     for i, c in enumerate(cases):
         if i % 5 == 3:
             c["_blankline"] = True
+    #  _prefixhost: host names one of which is a prefix of the other (node1 / node10)
+    for i, c in enumerate(cases):
+        if i % 4 == 2 and len(set(c["loom"])) >= 2:
+            c["_prefixhost"] = True
     #  _emptypart: an additional stream that is not a thread and has no events
     for i, c in enumerate(cases):
         if i % 6 == 4:
